@@ -39,6 +39,7 @@ type cluModel struct {
 	deploy      map[string]*opDeployment // operator id -> current deployment
 	faults      bool                     // failures are injected in this run
 	latency     int
+	sleep       time.Duration
 	total       int
 	applied     int // records applied (counting re-applications after recoveries)
 	firstSeenAt map[string]time.Duration
@@ -53,7 +54,7 @@ type opDeployment struct {
 
 func newCluModel(c *sim.Ctx, src *simSource) *cluModel {
 	m := &cluModel{c: c, prop: c.Prop, src: src, prefix: map[string][]int{}, posOf: map[string]int{}, seen: map[string]int{}, lastTS: map[string]int64{}, deploy: map[string]*opDeployment{},
-		latency: int(c.Cfg("hlat", 1)), firstSeenAt: map[string]time.Duration{}}
+		latency: int(c.Cfg("hlat", 1)), sleep: time.Duration(c.Cfg("hsleep_ms", 0)) * time.Millisecond, firstSeenAt: map[string]time.Duration{}}
 	for s, recs := range src.splits {
 		for _, r := range recs {
 			k := strconv.Itoa(s) + "|" + r.Key
@@ -142,6 +143,9 @@ func (h *cluHandler) ProcessEventBatch(ctx context.Context, req *handlerpb.Proce
 	m := h.m
 	for i := 0; i < m.latency; i++ {
 		simrt.Yield("handler.ProcessEventBatch")
+	}
+	if m.sleep > 0 {
+		simrt.Sleep("handler-busy", m.sleep) // a slow handler: back-pressure on the source runners
 	}
 	m.mu.Lock()
 	defer m.mu.Unlock()
